@@ -47,6 +47,23 @@ type Frame struct {
 	Parts []int  `json:"parts,omitempty"` // frag: sizes of the flushes of one message
 }
 
+// ReadFCase: sideConn.Read across message boundaries - messages that arrive
+// as several fragments, messages and fragments of zero length, and a
+// connection that is lost in the middle of a message ("cut": the writer has
+// flushed some fragments of the message, then the TCP connection goes away).
+type ReadFCase struct {
+	Script    []Frame  `json:"script"` // bin | frag | cut | text | close | lost
+	Bufs      []int    `json:"bufs"`
+	Chunks    []int    `json:"chunks"`
+	Total     int      `json:"total"`
+	Complete  int      `json:"complete"`  // bytes of the messages that were sent completely before the end
+	PrefixOK  bool     `json:"prefix_ok"` // what was read is a prefix of the bytes of the script's messages
+	Ended     string   `json:"ended"`     // eof | error | timeout
+	Later     []string `json:"later"`
+	TooLong   bool     `json:"too_long"`
+	SetupErr  string   `json:"setup_err,omitempty"`
+}
+
 type WriteCase struct {
 	Sizes      []int   `json:"sizes"` // one sideConn.Write per entry
 	CloseWrite bool    `json:"close_write"`
@@ -183,6 +200,7 @@ type Case struct {
 	Stage  *StageCase `json:"stage,omitempty"`
 	Write  *WriteCase `json:"write,omitempty"`
 	Read   *ReadCase  `json:"read,omitempty"`
+	ReadF  *ReadFCase `json:"readf,omitempty"`
 	Reply  *ReplyCase `json:"reply,omitempty"`
 	Pipe   *PipeCase  `json:"pipe,omitempty"`
 	WFail  *WriteFailCase `json:"wfail,omitempty"`
@@ -213,8 +231,12 @@ type wsPair struct {
 	ts     *httptest.Server
 }
 
-func newWSPair() (*wsPair, error) {
-	up := &websocket.Upgrader{ReadBufferSize: sniproxy.DefaultReadBufferSize, WriteBufferSize: sniproxy.DefaultWriteBufferSize}
+func newWSPair() (*wsPair, error) { return newWSPairBuf(sniproxy.DefaultWriteBufferSize) }
+
+// newWSPairBuf: the accepted side writes with a buffer of the given size (a
+// small one makes a message leave as several fragments).
+func newWSPairBuf(serverWriteBuf int) (*wsPair, error) {
+	up := &websocket.Upgrader{ReadBufferSize: sniproxy.DefaultReadBufferSize, WriteBufferSize: serverWriteBuf}
 	ch := make(chan *websocket.Conn, 1)
 	ts := httptest.NewServer(http.HandlerFunc(func(w http.ResponseWriter, r *http.Request) {
 		c, err := up.Upgrade(w, r, nil)
@@ -553,6 +575,156 @@ func runRead(r *hx.Rng, script []Frame) *ReadCase {
 		}
 		for i := 0; i < 2; i++ {
 			sc.SetReadDeadline(time.Now().Add(wait))
+			buf := make([]byte, 4096)
+			n, err := sc.Read(buf)
+			kind := classify(err)
+			if err == nil && n > 0 {
+				kind = "data"
+			}
+			if kind == "timeout" {
+				kind = "block"
+			}
+			c.Later = append(c.Later, kind)
+			if kind == "block" {
+				break
+			}
+		}
+	}
+	if len(c.Chunks) > 64 {
+		c.Chunks = c.Chunks[:64]
+	}
+	return c
+}
+
+// ---- readf stream: fragments, zero lengths, a cut in the middle of a message ----
+
+func genScriptF(r *hx.Rng, kind int) []Frame {
+	var s []Frame
+	msg := func() Frame {
+		switch r.Intn(8) {
+		case 0:
+			return Frame{T: "bin", Len: 0}
+		case 1: // an empty message written through a writer (a single empty final frame)
+			return Frame{T: "frag", Parts: []int{}}
+		case 2, 3: // several flushes, some of them empty
+			f := Frame{T: "frag"}
+			for j, k := 0, 2+r.Intn(4); j < k; j++ {
+				part := []int{0, 1, 100, 255, 256, 257, 600, 5000}[r.Intn(8)]
+				f.Parts = append(f.Parts, part)
+				f.Len += part
+			}
+			return f
+		default:
+			return Frame{T: "bin", Len: []int{1, 2, 255, 256, 257, 4096, 4097, 20000}[r.Intn(8)]}
+		}
+	}
+	for i, n := 0, r.Intn(5); i < n; i++ {
+		s = append(s, msg())
+	}
+	switch kind {
+	case 0: // the connection is lost in the middle of a message
+		s = append(s, Frame{T: "cut", Len: []int{1, 256, 257, 513, 541, 600, 1000, 5000, 70000}[r.Intn(9)]})
+	case 1:
+		s = append(s, Frame{T: "text", Len: 3}, Frame{T: "lost"})
+	case 2:
+		s = append(s, Frame{T: "lost"})
+	default:
+		s = append(s, Frame{T: "close", Code: []int{websocket.CloseNormalClosure, websocket.CloseGoingAway}[r.Intn(2)]})
+	}
+	return s
+}
+
+func runReadF(r *hx.Rng, kind int) *ReadFCase {
+	c := &ReadFCase{Script: genScriptF(r, kind), Chunks: []int{}, Later: []string{}}
+	for i, n := 0, 1+r.Intn(4); i < n; i++ {
+		c.Bufs = append(c.Bufs, []int{1, 7, 255, 256, 257, 4096, 32768}[r.Intn(7)])
+	}
+	p, err := newWSPairBuf(256)
+	if err != nil {
+		c.SetupErr = err.Error()
+		return c
+	}
+	defer p.close()
+	sc := sniproxy.VerifNewSideConn(p.client, "")
+	seed := r.U64()
+	var all []byte // the bytes of every binary message of the script, the cut one in full
+	total := 0
+	for i, f := range c.Script {
+		if f.T == "text" || f.T == "close" || f.T == "lost" {
+			break
+		}
+		all = append(all, pattern(seed+uint64(i), f.Len)...)
+		if f.T != "cut" {
+			c.Complete += f.Len
+		}
+		total += f.Len
+	}
+	go func() {
+		p.server.SetWriteDeadline(time.Now().Add(bound))
+		for i, f := range c.Script {
+			data := pattern(seed+uint64(i), f.Len)
+			switch f.T {
+			case "bin":
+				p.server.WriteMessage(websocket.BinaryMessage, data)
+			case "frag", "cut":
+				w, err := p.server.NextWriter(websocket.BinaryMessage)
+				if err != nil {
+					return
+				}
+				if f.T == "cut" {
+					w.Write(data) // what fills the writer's buffer leaves as fragments; the message is never finished
+					p.server.UnderlyingConn().Close()
+					return
+				}
+				off := 0
+				for _, part := range f.Parts {
+					w.Write(data[off : off+part])
+					off += part
+				}
+				w.Close()
+			case "text":
+				p.server.WriteMessage(websocket.TextMessage, []byte("EOF"))
+			case "close":
+				p.server.WriteControl(websocket.CloseMessage, websocket.FormatCloseMessage(f.Code, ""), time.Now().Add(bound))
+			case "lost":
+				p.server.UnderlyingConn().Close()
+				return
+			}
+		}
+	}()
+	sc.SetDeadline(time.Now().Add(bound))
+	for i := range c.Bufs {
+		for total/c.Bufs[i] > 300 {
+			c.Bufs[i] *= 16
+		}
+	}
+	var got []byte
+	zero := 0
+	for i := 0; ; i++ {
+		buf := make([]byte, c.Bufs[i%len(c.Bufs)])
+		n, err := sc.Read(buf)
+		if n > len(buf) {
+			c.TooLong = true
+			n = len(buf)
+		}
+		c.Chunks = append(c.Chunks, n)
+		got = append(got, buf[:n]...)
+		if err != nil {
+			c.Ended = classify(err)
+			break
+		}
+		if n == 0 {
+			if zero++; zero > 1000 {
+				c.Ended = "spinning"
+				break
+			}
+		}
+	}
+	c.Total = len(got)
+	c.PrefixOK = len(got) <= len(all) && bytes.Equal(got, all[:len(got)])
+	if c.Ended == "eof" || c.Ended == "error" {
+		for i := 0; i < 2; i++ {
+			sc.SetReadDeadline(time.Now().Add(bound))
 			buf := make([]byte, 4096)
 			n, err := sc.Read(buf)
 			kind := classify(err)
@@ -1280,6 +1452,9 @@ func plan(seed uint64, n, e2eN int, big, huge bool) []spec {
 		ss = append(ss, spec{stream: "e2e", seed: r.U64(), mode: e2e.Modes[i%3],
 			a: payloadSizes[r.Intn(len(payloadSizes))], b: payloadSizes[r.Intn(len(payloadSizes))]})
 	}
+	for k := 0; k < 16; k++ { // message boundaries: fragments, zero lengths, a cut in the middle of a message
+		ss = append(ss, spec{stream: "readf", seed: r.U64(), a: []int{0, 0, 1, 2, 0, 3, 0, 1}[k%8]})
+	}
 	ss = append(ss, spec{stream: "read", seed: r.U64(), a: 1}) // corpus: end marker, websocket left open
 	ss = append(ss, spec{stream: "write", seed: r.U64(), big: true})
 	ss = append(ss, spec{stream: "write", seed: r.U64(), a: 131075})
@@ -1290,7 +1465,11 @@ func plan(seed uint64, n, e2eN int, big, huge bool) []spec {
 		case c < 14:
 			ss = append(ss, spec{stream: "read", seed: r.U64()})
 		case c < 15:
-			ss = append(ss, spec{stream: "wfail", seed: r.U64()})
+			if r.Intn(2) == 0 {
+				ss = append(ss, spec{stream: "readf", seed: r.U64(), a: r.Intn(4)})
+			} else {
+				ss = append(ss, spec{stream: "wfail", seed: r.U64()})
+			}
 		case c < 17:
 			ss = append(ss, spec{stream: "reply", seed: r.U64()})
 		default:
@@ -1336,6 +1515,14 @@ func runSpec(i int, s spec) (c Case) {
 		c.Read = runRead(r, script)
 		if c.Read.Ended == "timeout" {
 			hungStream["read"]++
+		}
+	case "readf":
+		if hungStream["readf"] >= 3 {
+			return c
+		}
+		c.ReadF = runReadF(r, s.a)
+		if c.ReadF.Ended == "timeout" {
+			hungStream["readf"]++
 		}
 	case "wfail":
 		if hungStream["wfail"] >= 3 {
